@@ -786,6 +786,17 @@ def solve_triangular(Lm, B, lower=False, trans=0):
     if not isinstance(Lm, Mat) or len(Lm.nf) != 1:
         raise Unsupported("solve_triangular: the matrix is not a Cholesky factor of the abstract layer")
     (w, c), = Lm.nf.items()
+    if len(w) == 1 and w[0][0].kind != "chol" and isinstance(c, (int, float)) and c == 1 and isinstance(unwrap(trans), int) \
+            and unwrap(trans) == 0:
+        # an arbitrary named matrix (e.g. a stale factor left over from an earlier configuration): the solve with its stated
+        # triangle is an opaque linear map, named after the matrix -- no law connects it to anything else
+        A, t = w[0]
+        ti = _intern(Atom(f"trisolve[{_akey(A)}{chr(39) if t else ''},{'lower' if bool(unwrap(lower)) else 'upper'}]",
+                          Lm.rows, Lm.cols, kind="gen"))
+        Bm = _as_mat_like(B, None)
+        if not isinstance(Bm, Mat):
+            raise Unsupported("solve_triangular right-hand side")
+        return mat_matmul(Mat(Lm.rows, Lm.cols, {((ti, False),): 1}), Bm)
     if len(w) != 1 or w[0][0].kind != "chol" or not (isinstance(c, (int, float)) and c == 1):
         raise Unsupported("solve_triangular: the matrix is not a Cholesky factor of the abstract layer")
     unw = unwrap(trans)
